@@ -545,11 +545,12 @@ fn repetition_case(two: bool, ks: u8, ke: u8, has_left: bool, lower: usize, uppe
     let singular_separator = !two && ks == 5;
     let singular_zom = !two && v_is_z(ks);
     assert!((k != 0) == (rooted || closed || singular_separator || singular_zom), "C06 a repetition body is rejected exactly for a rooting optional body, a body closed by boundaries on both sides, or a singular separator / zero-or-more wildcard");
-    if rooted {
-        assert!(k == 1, "C06 an optional repetition that can root the expression is a rooted sub-glob");
-    }
-    else if k != 0 {
-        assert!(k == 4 || (k == 3 && singular_zom), "C06 adjacent boundary / singular zero-or-more");
+    if k != 0 {
+        // which violated rule is reported first is not part of the property: any violated one will do
+        assert!(
+            (k == 1 && rooted) || (k == 4 && (closed || singular_separator)) || (k == 3 && singular_zom),
+            "C06 the reported rule is one that is violated"
+        );
     }
     core::mem::forget(r);
     core::mem::forget((ts, te, tl));
